@@ -11,7 +11,7 @@ def run_resumable(exe, engine, in_path, out_path, prog_path, njobs):
     while start < njobs:
         try:
             p = subprocess.run([exe, engine, in_path, out_path, prog_path, str(start)], stdout=subprocess.PIPE,
-                               stderr=subprocess.PIPE, text=True, timeout=1200)
+                               stderr=subprocess.PIPE, text=True, timeout=1200, preexec_fn=limit_as)
             rc, err = p.returncode, p.stderr[-400:]
         except subprocess.TimeoutExpired:
             rc, err = -999, "timeout"
@@ -100,7 +100,7 @@ def run_c_client(v, behs, ev):
         sp, rp = os.path.join(d, "script.txt"), os.path.join(d, "result.txt")
         open(sp, "w").write("\n".join(lines) + "\n")
         try:
-            p = subprocess.run([exe, sp, rp], stdout=subprocess.PIPE, stderr=subprocess.PIPE, text=True, timeout=120)
+            p = subprocess.run([exe, sp, rp], stdout=subprocess.PIPE, stderr=subprocess.PIPE, text=True, timeout=120, preexec_fn=limit_as)
             rc, err = p.returncode, p.stderr[-300:]
         except subprocess.TimeoutExpired:
             rc, err = -999, "timeout"
